@@ -515,6 +515,27 @@ mod rel {
             let got: Vec<Vec<(String, Option<String>, Option<(VersionConstraint, String)>, Option<Vec<String>>, Vec<Vec<BuildProfile>>)>> = ll.entries().map(|e| e.relations().map(|x| (x.name(), x.archqual(), x.version().map(|(c, v)| (c, v.to_string())), x.architectures().map(|a| a.collect()), x.profiles().collect())).collect()).collect();
             let want: Vec<Vec<(String, Option<String>, Option<(VersionConstraint, String)>, Option<Vec<String>>, Vec<Vec<BuildProfile>>)>> = rels.0.iter().map(|e| e.iter().map(|x| (x.name.clone(), x.archqual.clone(), x.version.clone().map(|(c, v)| (c, v.to_string())), x.architectures.clone(), x.profiles.clone())).collect()).collect();
             if got != want { return Err(Fail { prop: "C10".into(), input: t.clone(), what: "entries / alternatives / names / qualifiers / versions / architectures / profiles differ".into(), expected: format!("{:?}", want), got: format!("{:?}", got) }); }
+            // the same field with free spaces, tabs and newlines around the separators, empty entries and a trailing comma:
+            // accepted by the strict lossless reader and by the lossy reader, with the same structure
+            let wsp: &[&str] = &["", " ", "  ", "\t", "\n ", " \n  "];
+            let mut m = String::new();
+            if r.below(6) == 0 { m.push_str(*r.pick(wsp)); m.push(','); }
+            m.push_str(*r.pick(wsp));
+            for (i, e) in rels.0.iter().enumerate() {
+                if i > 0 { m.push_str(*r.pick(wsp)); m.push(','); if r.below(5) == 0 { m.push_str(*r.pick(wsp)); m.push(','); } m.push_str(*r.pick(wsp)); }
+                for (j, a) in e.iter().enumerate() { if j > 0 { m.push_str(*r.pick(wsp)); m.push('|'); m.push_str(*r.pick(wsp)); } m.push_str(&a.to_string()); }
+            }
+            if r.below(4) == 0 { m.push_str(*r.pick(wsp)); m.push(','); }
+            m.push_str(*r.pick(wsp));
+            let ll2 = match LRelations::from_str(&m) { Ok(x) => x, Err(e) => return Err(Fail { prop: "C10".into(), input: m.clone(), what: "strict lossless reader rejects a well-formed field (free white space around separators, empty entries, trailing comma)".into(), expected: "Ok".into(), got: e }) };
+            if ll2.to_string() != m { return Err(Fail { prop: "C10".into(), input: m.clone(), what: "printed text differs".into(), expected: m.clone(), got: ll2.to_string() }); }
+            let got2: Vec<Vec<String>> = ll2.entries().map(|e| e.relations().map(|x| { let l: Relation = x.into(); l.to_string() }).collect()).collect();
+            let want2: Vec<Vec<String>> = rels.0.iter().map(|e| e.iter().map(|x| x.to_string()).collect()).collect();
+            if got2 != want2 { return Err(Fail { prop: "C10".into(), input: m.clone(), what: "the lossless reader does not expose the entries and alternatives that were written".into(), expected: format!("{:?}", want2), got: format!("{:?}", got2) }); }
+            match Relations::from_str(&m) {
+                Ok(b) if b == rels => {}
+                other => return Err(Fail { prop: "C10".into(), input: m.clone(), what: "the lossy reader does not accept the same field with the same structure".into(), expected: format!("{:?}", rels), got: format!("{:?}", other) }),
+            }
         }
         Ok(n)
     }
@@ -876,12 +897,40 @@ mod cpr {
             c => !s.is_empty() && s[0] == c && glob(&p[1..], &s[1..]),
         }
     }
-    const PATS: &[&str] = &["*", "src/*", "src/*.c", "src/*?", "doc/*??.txt", "*.h", "a?c", "win\\\\*", "glob/star\\*", "debian/*", "src/a.c", "?", "*/*"];
-    const PATHS: &[&str] = &["src/a.c", "src/", "src/ab", "doc/a.txt", "doc/abc.txt", "x.h", "abc", "ac", "win\\foo.c", "glob/star*", "glob/starx", "debian/rules", "a", "README", "a/b"];
+    const PATS: &[&str] = &["*", "src/*", "src/*.c", "src/*?", "doc/*??.txt", "*.h", "a?c", "win\\\\*", "glob/star\\*", "debian/*", "src/a.c", "?", "*/*", "doc/c++-notes.txt", "a(b"];
+    const PATHS: &[&str] = &["src/a.c", "src/", "src/ab", "doc/a.txt", "doc/abc.txt", "x.h", "abc", "ac", "win\\foo.c", "glob/star*", "glob/starx", "debian/rules", "a", "README", "a/b", "src/aXc", "doc/c++-notes.txt", "doc/cc-notes.txt", "a(b"];
     const LICS: &[&str] = &["MIT", "GPL-2+", "BSD-3-clause", "Apache-2.0"];
+    /// explicit case: a stand-alone licence paragraph that has a name and no text
+    fn name_only_licence() -> Result<usize, Fail> {
+        let text = "Format: https://www.debian.org/doc/packaging-manuals/copyright-format/1.0/\n\nFiles: *\nCopyright: 2024 X\nLicense: GPL\n\nLicense: GPL\n";
+        let lossy = debian_copyright::lossy::Copyright::from_str(text).map_err(|e| Fail { prop: "C17".into(), input: text.into(), what: "lossy reader rejects a machine-readable file".into(), expected: "Ok".into(), got: e })?;
+        let lossless = debian_copyright::lossless::Copyright::from_str(text).map_err(|e| Fail { prop: "C17".into(), input: text.into(), what: "lossless reader rejects a machine-readable file".into(), expected: "Ok".into(), got: format!("{:?}", e) })?;
+        let p = std::path::Path::new("a");
+        let a = lossy.find_license_for_file(p).and_then(|l| l.name().map(|s| s.to_string()));
+        let b = lossless.find_license_for_file(p).and_then(|l| l.name().map(|s| s.to_string()));
+        if a != b {
+            if a == Some("GPL".to_string()) && b.is_none() { crate::anytext::note_known_pub("C17:name-only-standalone-licence", "a stand-alone License paragraph with a name and no text (\"License: GPL\"): the lossy reader resolves the reference, the lossless one does not (LicenseParagraph::name() is None for a one-line value)"); }
+            else { return Err(Fail { prop: "C17".into(), input: text.into(), what: "the lossy and the lossless reader give different licences for a file".into(), expected: format!("{:?}", a), got: format!("{:?}", b) }); }
+        }
+        Ok(1)
+    }
+    /// explicit case: a Files paragraph whose licence carries its own text wins over a stand-alone paragraph of the same name
+    fn own_text_wins() -> Result<usize, Fail> {
+        let text = "Format: https://www.debian.org/doc/packaging-manuals/copyright-format/1.0/\n\nFiles: *\nCopyright: 2024 X\nLicense: BSD-3-clause\n own variant\n\nFiles: lib/*\nCopyright: 2024 Y\nLicense: BSD-3-clause\n\nLicense: BSD-3-clause\n stand-alone variant\n";
+        let lossy = debian_copyright::lossy::Copyright::from_str(text).map_err(|e| Fail { prop: "C17".into(), input: text.into(), what: "lossy reader rejects a machine-readable file".into(), expected: "Ok".into(), got: e })?;
+        let lossless = debian_copyright::lossless::Copyright::from_str(text).map_err(|e| Fail { prop: "C17".into(), input: text.into(), what: "lossless reader rejects a machine-readable file".into(), expected: "Ok".into(), got: format!("{:?}", e) })?;
+        for (path, want) in [("vendor/x.c", "own variant"), ("lib/y.c", "stand-alone variant")] {
+            let p = std::path::Path::new(path);
+            let a = lossy.find_license_for_file(p).and_then(|l| l.text().map(|s| s.to_string()));
+            let b = lossless.find_license_for_file(p).and_then(|l| l.text().map(|s| s.to_string()));
+            if a.as_deref() != Some(want) { return Err(Fail { prop: "C17".into(), input: format!("{:?} looked up for {}", text, path), what: "lossy: the licence is the paragraph's own when it carries text, otherwise the stand-alone paragraph of that name".into(), expected: want.into(), got: format!("{:?}", a) }); }
+            if b.as_deref() != Some(want) { return Err(Fail { prop: "C17".into(), input: format!("{:?} looked up for {}", text, path), what: "lossless: the licence is the paragraph's own when it carries text, otherwise the stand-alone paragraph of that name".into(), expected: want.into(), got: format!("{:?}", b) }); }
+        }
+        Ok(2)
+    }
     pub fn run() -> Result<usize, Fail> {
         let mut r = Rng(crate::seed_mix(0x94D049BB133111EB));
-        let mut n = 0;
+        let mut n = name_only_licence()? + own_text_wins()?;
         for _ in 0..3000 * crate::scale() {
             let np = 1 + r.below(4);
             let paras: Vec<(Vec<&str>, &str)> = (0..np).map(|_| { let k = 1 + r.below(2); ((0..k).map(|_| *r.pick(PATS)).collect(), *r.pick(LICS)) }).collect();
@@ -896,9 +945,9 @@ mod cpr {
                 let want = paras.iter().rposition(|(pats, _)| pats.iter().any(|p| glob(&p.chars().collect::<Vec<_>>(), &pc)));
                 let want_lic = want.map(|i| paras[i].1.to_string());
                 let p = std::path::Path::new(path);
-                let got_lossy = lossy.find_license_for_file(p).and_then(|l| l.name().map(|s| s.to_string()));
-                let got_ll = lossless.find_license_for_file(p).and_then(|l| l.name().map(|s| s.to_string()));
                 let input = format!("{}\n--- path: {}", text, path);
+                let got_lossy = match std::panic::catch_unwind(std::panic::AssertUnwindSafe(|| lossy.find_license_for_file(p).and_then(|l| l.name().map(|s| s.to_string())))) { Ok(x) => x, Err(_) => return Err(Fail { prop: "C17".into(), input, what: "lossy lookup panics on a well-formed pattern".into(), expected: "an answer".into(), got: "panic".into() }) };
+                let got_ll = match std::panic::catch_unwind(std::panic::AssertUnwindSafe(|| lossless.find_license_for_file(p).and_then(|l| l.name().map(|s| s.to_string())))) { Ok(x) => x, Err(_) => return Err(Fail { prop: "C17".into(), input, what: "lossless lookup panics on a well-formed pattern".into(), expected: "an answer".into(), got: "panic".into() }) };
                 if got_lossy != want_lic { return Err(Fail { prop: "C17".into(), input, what: "lossy lookup: not the last matching Files paragraph".into(), expected: format!("{:?}", want_lic), got: format!("{:?}", got_lossy) }); }
                 if got_ll != want_lic { return Err(Fail { prop: "C17".into(), input, what: "lossless lookup: not the last matching Files paragraph".into(), expected: format!("{:?}", want_lic), got: format!("{:?}", got_ll) }); }
             }
@@ -915,10 +964,34 @@ mod acc {
     use std::collections::HashMap;
     use std::str::FromStr;
     const WORDS: &[&str] = &["a", "foo", "lib-x", "1.0", "x=y", "DEB_BUILD_OPTIONS", "parallel=4", "\"quoted=1\"", "LANG", "C.UTF-8"];
+    /// list-valued setters of the lossless copyright and control wrappers, read back on the live tree and after re-reading
+    fn list_setters() -> Result<usize, Fail> {
+        let text = "Format: https://www.debian.org/doc/packaging-manuals/copyright-format/1.0/\n\nFiles: *\nCopyright: 2000 Old\nLicense: MIT\n";
+        let mut n = 0;
+        for holders in [vec!["2019 John Doe"], vec!["2019 John Doe", "2020 Jane Roe"], vec!["a", "b", "c"]] {
+            let c = debian_copyright::lossless::Copyright::from_str(text).map_err(|e| Fail { prop: "C15".into(), input: text.into(), what: "lossless copyright reader rejects a machine-readable file".into(), expected: "Ok".into(), got: format!("{:?}", e) })?;
+            let mut f = c.iter_files().next().unwrap();
+            f.set_copyright(&holders);
+            n += 1;
+            let want: Vec<String> = holders.iter().map(|x| x.to_string()).collect();
+            let shown = format!("FilesParagraph::set_copyright({:?})", holders);
+            if f.copyright() != want { return Err(Fail { prop: "C15".into(), input: shown, what: "copyright() does not return what set_copyright() wrote (live object)".into(), expected: format!("{:?}", want), got: format!("{:?}", f.copyright()) }); }
+            let again = debian_copyright::lossless::Copyright::from_str(&c.to_string()).ok().and_then(|c2| c2.iter_files().next().map(|f2| f2.copyright()));
+            if again != Some(want.clone()) { return Err(Fail { prop: "C15".into(), input: shown, what: "copyright() of the re-read file does not return what set_copyright() wrote".into(), expected: format!("{:?}", want), got: format!("{:?}", again) }); }
+        }
+        // Vcs-* of a parsed source paragraph
+        let ctl: debian_control::lossless::Control = "Source: x\nVcs-Git: https://g.example/r.git -b main\n".parse().map_err(|_| Fail { prop: "C15".into(), input: "control".into(), what: "control reader rejects".into(), expected: "Ok".into(), got: "Err".into() })?;
+        n += 1;
+        match ctl.source().and_then(|s| s.vcs()) {
+            Some(debian_control::vcs::Vcs::Git { repo_url, branch, .. }) if repo_url == "https://g.example/r.git" && branch.as_deref() == Some("main") => {}
+            other => return Err(Fail { prop: "C15".into(), input: "Source: x\nVcs-Git: https://g.example/r.git -b main\n".into(), what: "Source::vcs() does not return the documented reading of the Vcs-Git field".into(), expected: "Git { repo_url, branch: main }".into(), got: format!("{:?}", other) }),
+        }
+        Ok(n)
+    }
     pub fn run() -> Result<usize, Fail> {
         use debian_control::lossless::buildinfo::Buildinfo;
         let mut r = Rng(crate::seed_mix(0xC2B2AE3D27D4EB4F));
-        let mut n = 0;
+        let mut n = list_setters()?;
         for _ in 0..2000 * crate::scale() {
             n += 1;
             let mut b = Buildinfo::new();
@@ -1125,6 +1198,17 @@ mod anytext {
         ep!(v, "lossless Relation::from_str", |s: &str| { let _ = debian_control::lossless::relations::Relation::from_str(s); });
         ep!(v, "lossy Relations::from_str", |s: &str| { let _ = debian_control::lossy::Relations::from_str(s); });
         ep!(v, "lossy Relation::from_str", |s: &str| { let _ = debian_control::lossy::Relation::from_str(s); });
+        ep!(v, "lossless Control::read_relaxed, then every typed getter of the source and binary paragraphs (the field values are text turned into typed values)", |s: &str| {
+            let c = match debian_control::lossless::Control::read_relaxed(s.as_bytes()) { Ok((c, _)) => c, Err(_) => return };
+            if let Some(x) = c.source() {
+                let _ = (x.name(), x.section(), x.priority(), x.maintainer(), x.build_depends(), x.build_depends_indep(), x.build_depends_arch(), x.build_conflicts(), x.build_conflicts_indep(), x.build_conflicts_arch());
+                let _ = (x.standards_version(), x.homepage(), x.vcs_git(), x.vcs_browser(), x.vcs(), x.uploaders(), x.architecture(), x.rules_requires_root(), x.testsuite());
+            }
+            for b in c.binaries() {
+                let _ = (b.name(), b.section(), b.priority(), b.architecture(), b.depends(), b.recommends(), b.suggests(), b.enhances(), b.pre_depends(), b.breaks(), b.conflicts(), b.replaces(), b.provides(), b.built_using());
+                let _ = (b.multi_arch(), b.essential(), b.description(), b.homepage());
+            }
+        });
         ep!(v, "lossless Control::from_str", |s: &str| { let _ = debian_control::lossless::Control::from_str(s); });
         ep!(v, "lossless Control::read", |s: &str| { let _ = debian_control::lossless::Control::read(s.as_bytes()); });
         ep!(v, "lossless Control::read_relaxed", |s: &str| { let _ = debian_control::lossless::Control::read_relaxed(s.as_bytes()); });
@@ -1574,7 +1658,8 @@ fn main() {
         match sat::run() { Ok(n) => { eprintln!("vwit C12: no failing input among {} field / installed-set pairs", n); return; } Err(f) => f.print_and_exit() }
     }
     if prop == "C17" {
-        match cpr::run() { Ok(n) => { eprintln!("vwit C17: no failing input among {} lookups", n); return; } Err(f) => f.print_and_exit() }
+        std::panic::set_hook(Box::new(|_| {}));
+        match cpr::run() { Ok(n) => { anytext::print_known(); eprintln!("vwit C17: no unlisted failing input among {} lookups", n); return; } Err(f) => f.print_and_exit() }
     }
     if prop == "C11" {
         std::panic::set_hook(Box::new(|_| {}));
